@@ -1,6 +1,7 @@
 import NomtModel.Store.WalkerSimMoves
 import NomtModel.Store.WalkerSim
 import NomtModel.Store.WalkerGSim
+import NomtModel.Store.WalkerTreeWrites
 /-!
 # `handle_elision_threshold`, `up`, `down` of the mirror against the tree walker
 -/
@@ -88,6 +89,7 @@ theorem handleElision_spec (ps : PageSet Node) (ids : List PageId)
       (∀ o ∈ w'.outputPages, o ∈ w.outputPages ∨
         ∃ pg d b, pg.nodes = sp.page.nodes ∧ o = .updated sp.pageId pg d b ∧
           ∀ i, sp.diff.changed i = true → d.changed i = true) ∧
+      (w'.outputPages = w.outputPages ∨ ∃ o, w'.outputPages = w.outputPages ++ [o] ∧ o.pageId = sp.pageId) ∧
       ((below = [] ∧ w'.stack = []) ∨
        (∃ parent rest parent', below = parent :: rest ∧ w'.stack = parent' :: rest ∧
           parent'.pageId = parent.pageId ∧ parent'.page = parent.page ∧ CountersOK parent' ∧
@@ -104,7 +106,7 @@ theorem handleElision_spec (ps : PageSet Node) (ids : List PageId)
     simp only
     rw [pushOut_ok _ _ (by exact hrec)]
     exact ⟨_, rfl, Same.rfl' _, rfl, rfl, rfl,
-      pushUpdated_outs w _ sp _ rfl hid (storeElided_nodes sp) (by intro i hi; rw [storeElided_diff]; exact hi), Or.inl ⟨trivial, rfl⟩⟩
+      pushUpdated_outs w _ sp _ rfl hid (storeElided_nodes sp) (by intro i hi; rw [storeElided_diff]; exact hi), Or.inr ⟨_, rfl, hid⟩, Or.inl ⟨trivial, rfl⟩⟩
   | cons parent rest =>
     simp only
     have hcp : CountersOK parent := hc parent (by rw [hst]; simp)
@@ -116,6 +118,7 @@ theorem handleElision_spec (ps : PageSet Node) (ids : List PageId)
         (∀ o ∈ w'.outputPages, o ∈ w.outputPages ∨
           ∃ pg d b, pg.nodes = sp.page.nodes ∧ o = .updated sp.pageId pg d b ∧
             ∀ i, sp.diff.changed i = true → d.changed i = true) ∧
+        (w'.outputPages = w.outputPages ∨ ∃ o, w'.outputPages = w.outputPages ++ [o] ∧ o.pageId = sp.pageId) ∧
         ∃ parent', w'.stack = parent' :: rest ∧ parent'.pageId = parent.pageId ∧ parent'.page = parent.page ∧
           CountersOK parent' ∧ parent'.diff = parent.diff ∧ Acct ps (ids ++ [sp.pageId]) parent' := by
       unfold keepPage
@@ -123,7 +126,7 @@ theorem handleElision_spec (ps : PageSet Node) (ids : List PageId)
       simp only
       rw [pushOut_ok _ _ (by exact hrec)]
       refine ⟨_, rfl, Same.rfl' _, rfl, rfl, rfl, pushUpdated_outs w _ sp _ rfl hid (storeElided_nodes sp) (by intro i hi; rw [storeElided_diff]; exact hi),
-        _, rfl, rfl, rfl, ?_, rfl, ?_⟩
+        Or.inr ⟨_, rfl, hid⟩, _, rfl, rfl, rfl, ?_, rfl, ?_⟩
       · intro h; cases h
       · refine acct_kept (hacp.mono hsub) rfl ?_ rfl rfl
         show (if w.mutStalePrev = true then parent.prevChildrenLeaves else none) = parent.prevChildrenLeaves ∨
@@ -134,13 +137,13 @@ theorem handleElision_spec (ps : PageSet Node) (ids : List PageId)
     by_cases hroot : parentPageId (storeElided sp).pageId = []
     · rw [if_pos hroot, pushOut_ok _ _ (by exact hrec)]
       exact ⟨_, rfl, Same.rfl' _, rfl, rfl, rfl, pushUpdated_outs w _ sp _ rfl hid (storeElided_nodes sp) (by intro i hi; rw [storeElided_diff]; exact hi),
-        Or.inr ⟨parent, rest, parent, rfl, rfl, rfl, rfl, hcp, rfl, hacp.mono hsub⟩⟩
+        Or.inr ⟨_, rfl, hid⟩, Or.inr ⟨parent, rest, parent, rfl, rfl, rfl, rfl, hcp, rfl, hacp.mono hsub⟩⟩
     · rw [if_neg hroot]
       cases hor : (storeElided sp).childrenLeaves.or (storeElided sp).prevChildrenLeaves with
       | none =>
         simp only
-        obtain ⟨w', h1, h2, h3, h4, h5, ho, p', h6, h7, h8, h9, h10, h11⟩ := hkeep
-        exact ⟨w', h1, h2, h3, h4, h5, ho, Or.inr ⟨parent, rest, p', rfl, h6, h7, h8, h9, h10, h11⟩⟩
+        obtain ⟨w', h1, h2, h3, h4, h5, ho, hsh, p', h6, h7, h8, h9, h10, h11⟩ := hkeep
+        exact ⟨w', h1, h2, h3, h4, h5, ho, hsh, Or.inr ⟨parent, rest, p', rfl, h6, h7, h8, h9, h10, h11⟩⟩
       | some clc =>
         simp only
         split
@@ -217,11 +220,11 @@ theorem handleElision_spec (ps : PageSet Node) (ids : List PageId)
           split
           · exact ⟨_, rfl, ⟨rfl, rfl, rfl, rfl, hrec.symm⟩, rfl, rfl, rfl,
               pushUpdated_outs w _ sp _ rfl hid (storeElided_nodes sp) (by intro i hi; show ((storeElided sp).diff.setCleared).changed i = true; rw [PageDiff.changed_setCleared, storeElided_diff, hi]; rfl),
-              Or.inr ⟨parent, rest, _, rfl, rfl, hp2id, hp2pg, hc3, hp2d, hac3⟩⟩
+              Or.inr ⟨_, rfl, hid⟩, Or.inr ⟨parent, rest, _, rfl, rfl, hp2id, hp2pg, hc3, hp2d, hac3⟩⟩
           · exact ⟨_, rfl, ⟨rfl, rfl, rfl, rfl, hrec.symm⟩, rfl, rfl, rfl, fun o ho => Or.inl ho,
-              Or.inr ⟨parent, rest, _, rfl, rfl, hp2id, hp2pg, hc3, hp2d, hac3⟩⟩
-        · obtain ⟨w', h1, h2, h3, h4, h5, ho, p', h6, h7, h8, h9, h10, h11⟩ := hkeep
-          exact ⟨w', h1, h2, h3, h4, h5, ho, Or.inr ⟨parent, rest, p', rfl, h6, h7, h8, h9, h10, h11⟩⟩
+              Or.inl rfl, Or.inr ⟨parent, rest, _, rfl, rfl, hp2id, hp2pg, hc3, hp2d, hac3⟩⟩
+        · obtain ⟨w', h1, h2, h3, h4, h5, ho, hsh, p', h6, h7, h8, h9, h10, h11⟩ := hkeep
+          exact ⟨w', h1, h2, h3, h4, h5, ho, hsh, Or.inr ⟨parent, rest, p', rfl, h6, h7, h8, h9, h10, h11⟩⟩
 
 /-! ## the reconstructor (`new_reconstructor`): every page is handed out as reconstructed; nothing may be kept -/
 
@@ -307,6 +310,7 @@ theorem handleElision_sum (ps : PageSet Node) (ids : List PageId)
       (∀ o ∈ w'.outputPages, o ∈ w.outputPages ∨
         (o.pageId = sp.pageId ∧ o.page.nodes = sp.page.nodes ∧ o.isReconstructed = w.reconstruction ∧
           ∀ i, sp.diff.changed i = true → o.diff.changed i = true)) ∧
+      (w'.outputPages = w.outputPages ∨ ∃ o, w'.outputPages = w.outputPages ++ [o] ∧ o.pageId = sp.pageId) ∧
       ((below = [] ∧ w'.stack = []) ∨
        (∃ parent rest parent', below = parent :: rest ∧ w'.stack = parent' :: rest ∧
           parent'.pageId = parent.pageId ∧ parent'.page = parent.page ∧ CountersOK parent' ∧
@@ -317,8 +321,8 @@ theorem handleElision_sum (ps : PageSet Node) (ids : List PageId)
         o.page.nodes = sp.page.nodes) := by
   cases hrec : w.reconstruction with
   | false =>
-    obtain ⟨w', h1, h2, h3, h4, h5, ho, hs'⟩ := handleElision_spec H ps ids w sp below hst hrec hc hne hac hchild hnew
-    refine ⟨w', h1, h2, h3, h4, h5, ?_, ?_, fun h => by cases h⟩
+    obtain ⟨w', h1, h2, h3, h4, h5, ho, hsh, hs'⟩ := handleElision_spec H ps ids w sp below hst hrec hc hne hac hchild hnew
+    refine ⟨w', h1, h2, h3, h4, h5, ?_, hsh, ?_, fun h => by cases h⟩
     · intro o ho'
       rcases ho o ho' with h | ⟨pg, d, b, e1, e2, e3⟩
       · exact Or.inl h
@@ -329,7 +333,7 @@ theorem handleElision_sum (ps : PageSet Node) (ids : List PageId)
   | true =>
     obtain ⟨hinh, hz⟩ := hrc hrec
     obtain ⟨w', pg, d, h1, h2, h3, h4, h5, hn, hd, ho, hs'⟩ := handleElision_spec_r H w sp below hst hrec hinh hz hne (hsm hrec)
-    refine ⟨w', h1, h2, h3, h4, h5, ?_, ?_, fun _ => ⟨_, ho, rfl, hn⟩⟩
+    refine ⟨w', h1, h2, h3, h4, h5, ?_, Or.inr ⟨_, ho, rfl⟩, ?_, fun _ => ⟨_, ho, rfl, hn⟩⟩
     · intro o ho'
       rw [ho, List.mem_append, List.mem_singleton] at ho'
       rcases ho' with h | h
@@ -419,7 +423,7 @@ theorem sim_up {w : Walker Node} {a : TW Node} (h : Sim H ps w a) (hd : 6 * k0 w
         h.recon.rc (fun hr => hsm hr h1)
     have hsum1 := hsum0 hacc
     have hsum2 := hsum1 hchild hnew'
-    obtain ⟨w1, hw1, hsame, hpos1, hroot1, hcpr1, houts1, hstack1, hrec1⟩ := hsum2
+    obtain ⟨w1, hw1, hsame, hpos1, hroot1, hcpr1, houts1, hshape1, hstack1, hrec1⟩ := hsum2
     rw [hw1]
     simp only
     rw [hpos1, hup]
@@ -481,7 +485,75 @@ theorem sim_up {w : Walker Node} {a : TW Node} (h : Sim H ps w a) (hd : 6 * k0 w
         rw [h.recon.outIds hr0, hoid, htop]
     refine ⟨hp'wf, by rw [hp'a, hposup], by rw [hroot1, hstoreup]; exact h.root, ?_, ?_, ?_, ?_, ?_, hrecon,
       by show w1.childPageRoots.map _ = _; rw [hcpr1, hcprup]; exact h.cpr, ?_,
-      by show w1.preFix = false; rw [hsame.2.2.2.1]; exact h.nofix, ?_, ?_⟩
+      by show w1.preFix = false; rw [hsame.2.2.2.1]; exact h.nofix, ?_, ?_, ?_⟩
+    rotate_right
+    · -- every slot written is named: the slots of the page just left move to its output, or to "left without output"
+      have hids : a.up.log.map (·.1) = a.log.map (·.1) ++ [top.pageId] := by
+        rw [hlogup, htop]; simp
+      have holdids : ∀ o ∈ w.outputPages, o.pageId ∈ a.log.map (·.1) := by
+        intro o ho
+        obtain ⟨st, hmem, _⟩ := h.outs o ho
+        exact List.mem_map_of_mem (f := (·.1)) hmem
+      have hmono : ∀ o ∈ w.outputPages, o ∈ w1.outputPages := by
+        intro o ho
+        rcases hshape1 with e | ⟨o', e, _⟩
+        · rw [e]; exact ho
+        · rw [e]; exact List.mem_append_left _ ho
+      have hnewout : ∀ o ∈ w1.outputPages, o ∉ w.outputPages → o.pageId = top.pageId ∧
+          ∀ i, top.diff.changed i = true → o.diff.changed i = true := by
+        intro o ho hn
+        rcases houts1 o ho with hold | ⟨h1', _, _, h4⟩
+        · exact absurd hold hn
+        · exact ⟨h1', h4⟩
+      refine ⟨?_, ?_⟩
+      · show (w1.outputPages.map PageOut.pageId).Nodup
+        rcases hshape1 with e | ⟨o', e, hid'⟩
+        · rw [e]; exact h.named.1
+        · rw [e, List.map_append, List.nodup_append]
+          refine ⟨h.named.1, by simp, ?_⟩
+          intro i hi j hj eij
+          simp only [List.map_cons, List.map_nil, List.mem_singleton] at hj
+          obtain ⟨o, ho, rfl⟩ := List.mem_map.mp hi
+          rw [hj, hid'] at eij
+          exact hnew' (by rw [← eij]; exact holdids o ho)
+      · intro q hq hne
+        have hq' : q ∈ a.wl := by
+          have : a.up.wl = a.wl := by unfold TW.up; split <;> rfl
+          rw [this] at hq; exact hq
+        rw [hids]
+        rcases h.named.2 q hq' hne with ⟨sp, hsp, h1', h2'⟩ | ⟨o, ho, h1', h2'⟩ | ⟨h1', h2'⟩
+        · rw [hst] at hsp
+          rcases List.mem_cons.mp hsp with e | hsp'
+          · -- a slot of the page just left
+            by_cases hex : ∃ o ∈ w1.outputPages, o.pageId = top.pageId
+            · obtain ⟨o, ho, hoid⟩ := hex
+              have hon : o ∉ w.outputPages := by
+                intro hin
+                exact hnew' (by rw [← hoid]; exact holdids o hin)
+              right; left
+              refine ⟨o, ho, by rw [hoid, ← e]; exact h1', (hnewout o ho hon).2 _ (by rw [← e]; exact h2')⟩
+            · right; right
+              refine ⟨by rw [← h1', e]; simp, ?_⟩
+              intro o ho hoid
+              exact hex ⟨o, ho, by rw [hoid, ← h1', e]⟩
+          · left
+            rcases hstack1 with ⟨hb, _⟩ | ⟨parent, rest, parent', hb, hs, hpid, _, _, hpdf, _⟩
+            · rw [hb] at hsp'; cases hsp'
+            · rw [hb] at hsp'
+              show ∃ sp ∈ w1.stack, _
+              rw [hs]
+              rcases List.mem_cons.mp hsp' with e2 | hsp''
+              · exact ⟨parent', List.mem_cons_self .., by rw [hpid, ← e2]; exact h1', by rw [hpdf, ← e2]; exact h2'⟩
+              · exact ⟨sp, List.mem_cons_of_mem _ hsp'', h1', h2'⟩
+        · right; left
+          exact ⟨o, hmono o ho, h1', h2'⟩
+        · right; right
+          refine ⟨List.mem_append_left _ h1', ?_⟩
+          intro o ho hoid
+          by_cases hin : o ∈ w.outputPages
+          · exact h2' o hin hoid
+          · have := (hnewout o ho hin).1
+            exact hnew' (by rw [← this, hoid]; exact h1')
     rotate_right
     · -- the accounting: the page just left joins the log
       intro sp hsp
@@ -576,7 +648,7 @@ theorem sim_up {w : Walker Node} {a : TW Node} (h : Sim H ps w a) (hd : 6 * k0 w
     have hlogup : a.up.log = a.log := by unfold TW.up; rw [if_neg h1]
     refine ⟨hp'wf, by rw [hp'a, hposup], by rw [hstoreup]; exact h.root, ?_, ?_, h.chain, ?_, h.counters,
       h.recon.cast H rfl rfl rfl rfl hlogup, by rw [hcprup]; exact h.cpr, by rw [hlogup]; exact h.outs, h.nofix, h.diffs,
-      h.acct.cast rfl hlogup⟩
+      h.acct.cast rfl hlogup, h.named.cast rfl rfl (by unfold TW.up; split <;> rfl) hlogup⟩
     · show w.stack = [] ↔ _
       rw [hst, hposup']
       simp only [false_iff, reduceCtorEq]
@@ -661,7 +733,8 @@ theorem sim_downBit (hfresh : ∀ P, (ps.fresh P).length = 126) {w : Walker Node
       rw [if_pos ⟨by rw [hnil]; rfl, rfl⟩]
     refine ⟨hp'wf, by rw [hp'a, hposd], ?_, ?_, ?_, ?_, ?_, ?_,
       reconInv_push H h.recon _ ⟨rfl, rfl⟩ rfl rfl rfl rfl rfl (hlogd _), by rw [hcprd]; exact h.cpr,
-      by rw [hlogd]; exact h.outs, h.nofix, ?_, ?_⟩
+      by rw [hlogd]; exact h.outs, h.nofix, ?_, ?_,
+      h.named.push (fun sp hsp => List.mem_cons_of_mem _ hsp) rfl (tw_downBit_wl _ _ _ _) (hlogd _)⟩
     rotate_right
     · intro sp hsp'
       have hsp'' : sp ∈ (StackPage.new [] (ps.freshPage []) PageDiff.empty freshOrigin :: w.stack) := hsp'
@@ -728,7 +801,10 @@ theorem sim_downBit (hfresh : ∀ P, (ps.fresh P).length = 126) {w : Walker Node
       refine ⟨hp'wf, by rw [hp'a, hposd], ?_, ?_, ?_, ?_, ?_, ?_,
         reconInv_push H h.recon (StackPage.new (P ++ [c]) (ps.freshPage (P ++ [c])) PageDiff.empty freshOrigin)
           ⟨rfl, rfl⟩ rfl rfl rfl rfl (by rw [hst]) (hlogd _), by rw [hcprd]; exact h.cpr,
-      by rw [hlogd]; exact h.outs, h.nofix, ?_, ?_⟩
+      by rw [hlogd]; exact h.outs, h.nofix, ?_, ?_,
+      h.named.push (fun sp hsp => by
+        show sp ∈ (_ :: top :: rest)
+        rw [← hst]; exact List.mem_cons_of_mem _ hsp) rfl (tw_downBit_wl _ _ _ _) (hlogd _)⟩
       rotate_right
       · intro sp hsp'
         have hsp'' : sp ∈ (StackPage.new (P ++ [c]) (ps.freshPage (P ++ [c])) PageDiff.empty freshOrigin :: top :: rest) := hsp'
@@ -801,7 +877,8 @@ theorem sim_downBit (hfresh : ∀ P, (ps.fresh P).length = 126) {w : Walker Node
         rw [if_neg (by intro hh; exact h6 hh.1)]
       refine ⟨hp'wf, by rw [hp'a, hposd], by rw [hstore]; exact h.root, ?_, ?_, h.chain, ?_, h.counters,
         h.recon.cast H rfl rfl rfl rfl (hlogd _),
-        by rw [hcprd]; exact h.cpr, by rw [hlogd]; exact h.outs, h.nofix, h.diffs, h.acct.cast rfl (hlogd _)⟩
+        by rw [hcprd]; exact h.cpr, by rw [hlogd]; exact h.outs, h.nofix, h.diffs, h.acct.cast rfl (hlogd _),
+        h.named.cast rfl rfl (tw_downBit_wl _ _ _ _) (hlogd _)⟩
       · show w.stack = [] ↔ _
         rw [hst, hposd]
         simp only [List.length_append, List.length_singleton, false_iff, reduceCtorEq]
